@@ -69,9 +69,10 @@ def run(ctx):
         m = re.match(r"^<(\w+) line [^>]*>: (\d+):(\d+)", line)
         if m:
             fired[m.group(1)] = fired.get(m.group(1), 0) + int(m.group(3))
-    for a in ("Tick", "ExecW", "ManualRange", "SetFault", "UpdToggle", "UpdQuery", "Restart"):
-        if fired.get(a, 0) == 0:
-            raise InfraError("vacuous model: action %s never fired (%s)" % (a, fired))
+    # the commands are guarded disjuncts of Next (On(name) /\ Action), so TLC attributes their coverage to Next;
+    # per-command vacuity is checked on the generated histories below (every command/outcome pair in `need`)
+    if sum(v for k, v in fired.items() if k not in ("Init", "Done")) == 0:
+        raise InfraError("vacuous model: no action fired (%s)" % fired)
     note = {"cfg": "MC_small.cfg", "distinct": mc.distinct, "generated": mc.generated, "depth": mc.depth,
             "invariants": ["TypeOK", "NonEmpty", "StartAtCursor", "CursorIsLastOk", "LabelIsStart",
                            "ChainContigNoRange", "RefinesProp"], "action_property": "FailKeeps",
@@ -91,6 +92,9 @@ def run(ctx):
     gen = ctx.tlc("cqwindow", "CQWindow", "Gen_small.cfg" if quick else "Gen_large.cfg", timeout=900, workers=4)
     for t in gen.traces:
         hists[json.dumps(t, sort_keys=True)] = t
+    chain = ctx.tlc("cqwindow", "CQWindow", "Gen_chain.cfg", timeout=900, workers=4)   # 3 commands over {sched, until, range, from}
+    for t in chain.traces:
+        hists[json.dumps(t, sort_keys=True)] = t
     n_exh = len(hists)
     sim = ctx.tlc("cqwindow", "CQWindow", "Gen_sim.cfg", mode="simulate", num=60 if quick else 600, depth=11,
                   workers=2, timeout=900)
@@ -103,7 +107,7 @@ def run(ctx):
     for h in hs:
         for c in h:
             pred["%s/%s" % (c["cmd"], c["out"])] = pred.get("%s/%s" % (c["cmd"], c["out"]), 0) + 1
-    need = ["sched/failedw", "manual/failedw", "breakw/none", "sched/ok", "sched/failed", "sched/rejected", "sched/inactive", "manual/ok", "manual/failed", "dry/dry",
+    need = ["tick/none", "sched/failedw", "manual/failedw", "breakw/none", "sched/ok", "sched/failed", "sched/rejected", "sched/inactive", "manual/ok", "manual/failed", "dry/dry",
             "range/ok", "range/failed", "from/ok", "until/ok", "until/rejected", "restart/none", "requery/none",
             "deactivate/none", "activate/none", "break/none", "heal/none"]
     miss = [k for k in need if not pred.get(k)]
